@@ -545,12 +545,17 @@ def _mk():
         v = a[0]
         if v is None:
             return ExtV("builtins.NoneType")
+        if type(v).__name__ in ("NTuple", "ClassDictV") and getattr(v, "cls", None) is not None:
+            return v.cls
         if isinstance(v, Obj) and isinstance(v.attrs.get("__class__"), Obj):
             return v.attrs["__class__"]  # a scenario object that models its class explicitly
         if isinstance(v, Obj):
             return v.cls if v.cls is not None else ExtV(v.cls_name)
         if isinstance(v, TV) and v.kind == "tensor":
             return ExtV("torch.Tensor")
+        if isinstance(v, (ExtV, ClassV)):
+            # the metaclass of a class: calling it with (name, bases, namespace) creates a class, as type() does
+            return ExtV("builtins.type") if isinstance(v, ClassV) else ExtV(f"metaclass-of:{v.name}")
         return TV(T("type", (A._term(v),)), kind="opaque")
 
     def b_callable(it, a, k, n):
